@@ -263,15 +263,45 @@ def monitor(case, out):
 
 OPS = {"rec": 0, "req": 1, "resp": 2}
 PREAMBLE = ("From Coq Require Import String.\nFrom V Require Import Base.NtsHex Model.NtsMsg.\n"
-            "Open Scope string_scope.\nNotation hw := hex_words.\n")
+            "Open Scope string_scope.\nNotation hw := (flat_map hex_ints).\n")
 
 
-def hexwords(ints):
-    """six hex digits per integer (all integers of the encodings are within 0 .. 2^24-1)"""
+def chunks(h, n):
+    return vplib.coq_list(['"%s"' % h[i:i + n] for i in range(0, len(h), n)])
+
+
+
+def hexints(ints):
+    """two hex digits per integer below 255, else ff + six digits (all integers of the encodings are within 0 .. 2^24-1);
+    chunks end on integer boundaries"""
+    out, cur = [], []
+    n = 0
     for x in ints:
         if not 0 <= x < (1 << 24):
             return vplib.coq_list([vplib.zlit(v) for v in ints])
-    return 'hw "%s"' % "".join("%06x" % x for x in ints)
+        t = "%02x" % x if x < 255 else "ff%06x" % x
+        cur.append(t)
+        n += len(t)
+        if n >= 6000:
+            out.append("".join(cur))
+            cur, n = [], 0
+    if cur:
+        out.append("".join(cur))
+    return "hw " + vplib.coq_list(['"%s"' % c for c in out])
+
+
+def balance(cases, nshards):
+    """order the cases so that consecutive blocks of ceil(n/nshards) cases have about the same total size
+    (the Coq side is sharded into consecutive blocks and its cost is proportional to the bytes)"""
+    per = -(-len(cases) // nshards)
+    order = sorted(range(len(cases)), key=lambda i: -len(cases[i][1]))
+    buckets = [[] for _ in range(nshards)]
+    load = [0] * nshards
+    for i in order:
+        k = min((b for b in range(nshards) if len(buckets[b]) < per), key=lambda b: load[b])
+        buckets[k].append(cases[i])
+        load[k] += len(cases[i][1]) + 40
+    return [c for b in buckets for c in b], per
 
 
 def load_corpus():
@@ -314,12 +344,19 @@ def main():
             cases.append(("rec", rec(ty, s)))
             cases.append(("rec", rec(ty, b"ok" + s + b"ok")))
             cases.append(("rec", rec(ty, s, None, len(s) + 2)))     # invalid and truncated: which error wins
-    for size in (65535, 65534, 4096, 4097):
+    for size in ((65535, 65534, 4096, 4097) if thorough else (4096, 4097)):
         cases.append(("rec", rec(5, rand_bytes(rng, size))))
         cases.append(("rec", rec(15, rand_bytes(rng, size - 1), 1, size)))
-    cases.append(("rec", rec(1, u16list(rand_ids(rng, 32767)))))
-    cases.append(("rec", rec(12, rand_bytes(rng, 65534))))
-    cases.append(("rec", rec(12, rand_bytes(rng, 65535))))
+    if thorough:
+        cases.append(("rec", rec(1, u16list(rand_ids(rng, 32767)))))
+        cases.append(("rec", rec(12, rand_bytes(rng, 65534))))
+        cases.append(("rec", rec(12, rand_bytes(rng, 65535))))
+    cases.append(("rec", rec(1, u16list(rand_ids(rng, 3000)))))
+    cases.append(("rec", rec(12, rand_bytes(rng, 6000))))
+    cases.append(("rec", rec(12, rand_bytes(rng, 6001))))
+    cases.append(("rec", rec(6, b"\xc3\xa9" * 4000)))
+    cases.append(("rec", rec(5, b"", None, 65535)))
+    cases.append(("rec", rec(12, b"abc", None, 65535)))
     for _ in range(6000 if thorough else 500):
         cases.append(("rec", rand_record(rng) + (rand_bytes(rng, rng.randint(0, 6)) if rng.random() < 0.5 else b"")))
     dist["records"] = len(cases) - n0
@@ -364,7 +401,7 @@ def main():
 
     # 4. the 4096-byte cap: messages ending at every offset around the cap, and far beyond
     n0 = len(cases)
-    ends = list(range(CAP - 9, CAP + 10)) + [CAP + 100, 2 * CAP, 5000, 9000]
+    ends = (list(range(CAP - 9, CAP + 10)) if thorough else list(range(CAP - 4, CAP + 6))) + [CAP + 100, 2 * CAP, 9000]
     for kind in ("req", "resp"):
         for e in ends:
             for _ in range(3 if thorough else 1):
@@ -380,6 +417,7 @@ def main():
         cases.append((kind, rec(8, b"") * 1024 + rec(0, b"")))
     dist["cap_straddling"] = len(cases) - n0
     dist["total"] = len(cases)
+    cases, per_shard = balance(cases, vplib.NCPU)
 
     outcome = {"accepted": 0, "rejected": 0, "panic": 0}
     errs = {}
@@ -398,10 +436,10 @@ def main():
 
     def coq_case(case, out):
         op, data = case
-        inp = '(%d, "%s")' % (OPS[op], data.hex())
+        inp = "(%d, %s)" % (OPS[op], chunks(data.hex(), 6000))
         if out[0] == "PANIC":
             return inp, "[2]"
-        return inp, hexwords([int(x) for x in out[1:]])
+        return inp, hexints([int(x) for x in out[1:]])
 
     vplib.correspondence(
         c, "ntp-proto", cases,
@@ -411,7 +449,7 @@ def main():
         checker="mismatches zlist_eqb run30s",
         monitor=monitor,
         nontrivial=nontrivial,
-        shard=400,
+        shard=per_shard,
         sample_of=lambda case, out: {"op": case[0], "bytes_hex": case[1].hex()[:120], "len": len(case[1]), "implementation": " ".join(out)[:160]},
     )
     dist["outcomes"] = outcome
@@ -420,7 +458,7 @@ def main():
     c.cov["distribution"] = dist
     c.cov["rule"] = ("records of all 14 kinds + unknown types with both critical bits, boundary bodies, length-field lies, "
                      "truncations; UTF-8 strings (boundary grid; all 1-2 byte strings in the thorough tier); request and response "
-                     "messages from the grammar with record-level mutations; messages ending at every offset 4087..4105 and beyond the "
+                     "messages from the grammar with record-level mutations; messages ending at every offset 4092..4101 (thorough: 4087..4105) and beyond the "
                      "4096-byte cap.  Compared: outcome class, bytes consumed (also on errors), the parsed value and its "
                      "re-serialisation.  Non-trivial = accepted, or rejected after the record header was read")
     c.assumptions += [
